@@ -2001,18 +2001,12 @@ void ScriptVariable::operator/=(const ScriptVariable& value)
         break;
 
     case uint32_t(variableType_e::Vector + variableType_e::Vector * variableType_e::Max): // ( vector ) / ( vector )
-        m_data.vectorValue = vec_zero;
-
-        if (value.m_data.vectorValue[0] != 0) {
-            m_data.vectorValue[0] = m_data.vectorValue[0] / value.m_data.vectorValue[0];
-        }
-
-        if (value.m_data.vectorValue[1] != 0) {
-            m_data.vectorValue[1] = m_data.vectorValue[1] / value.m_data.vectorValue[1];
-        }
-
-        if (value.m_data.vectorValue[2] != 0) {
-            m_data.vectorValue[2] = m_data.vectorValue[2] / value.m_data.vectorValue[2];
+        // component-wise, a component divided by zero is zero
+        for (int i = 0; i < 3; ++i)
+        {
+            m_data.vectorValue[i] = value.m_data.vectorValue[i] != 0
+                ? m_data.vectorValue[i] / value.m_data.vectorValue[i]
+                : 0.f;
         }
         break;
     }
@@ -2119,18 +2113,12 @@ void ScriptVariable::operator%=(const ScriptVariable& value)
         break;
 
     case uint32_t(variableType_e::Vector + variableType_e::Vector * variableType_e::Max): // ( vector ) % ( vector )
-        m_data.vectorValue = vec_zero;
-
-        if (value.m_data.vectorValue[0] != 0) {
-            m_data.vectorValue[0] = fmodf(m_data.vectorValue[0], value.m_data.vectorValue[0]);
-        }
-
-        if (value.m_data.vectorValue[1] != 0) {
-            m_data.vectorValue[1] = fmodf(m_data.vectorValue[1], value.m_data.vectorValue[1]);
-        }
-
-        if (value.m_data.vectorValue[2] != 0) {
-            m_data.vectorValue[2] = fmodf(m_data.vectorValue[2], value.m_data.vectorValue[2]);
+        // component-wise, a component taken modulo zero is zero
+        for (int i = 0; i < 3; ++i)
+        {
+            m_data.vectorValue[i] = value.m_data.vectorValue[i] != 0
+                ? fmodf(m_data.vectorValue[i], value.m_data.vectorValue[i])
+                : 0.f;
         }
 
         break;
